@@ -204,7 +204,7 @@ def finish(prop, tier, seed, st, t0, rule, level_text, assumptions=(),
         'samples': st.samples[:12] or ['(no sample recorded)'],
         'exhaustive': bool(exhaustive),
         'distinct_outcomes': len(st.outcomes),
-        'outcomes': dict(st.outcomes.most_common(40)),
+        'outcomes': {str(k): v for k, v in st.outcomes.most_common(40)},
         'caps_hit': st.caps,
         'known_findings_seen': [s for s, _, _ in known_hit],
         'explanation': level_text,
